@@ -15,6 +15,7 @@ import platform
 import shutil
 import subprocess
 import sys
+import threading
 import time
 
 VERIF = os.path.dirname(os.path.dirname(os.path.abspath(__file__)))
@@ -37,27 +38,67 @@ def tree_hash() -> str:
             for f in sorted(files):
                 if f.endswith((".py", ".c", ".h")):
                     p = os.path.join(d, f)
-                    h.update(p.encode())
+                    h.update(os.path.relpath(p, REPO).encode())  # content only: the same tree anywhere hashes alike
                     with open(p, "rb") as fh:
                         h.update(fh.read())
     return h.hexdigest()[:16]
 
 
+def repo_commit() -> str:
+    """HEAD of the tree under test plus '+dirty' if its working tree differs (informational)."""
+    try:
+        head = subprocess.run(["git", "-C", REPO, "rev-parse", "--short", "HEAD"], capture_output=True, text=True, timeout=20).stdout.strip()
+        dirty = subprocess.run(["git", "-C", REPO, "status", "--porcelain", "--untracked-files=no"], capture_output=True, text=True, timeout=20).stdout.strip()
+        return head + ("+dirty" if dirty else "")
+    except Exception:
+        return "?"
+
+
 _PYCACHE = None
+_LOCK = threading.Lock()
+STALE_S = 6 * 3600
+
+
+def _sweep_stale(prefixes) -> None:
+    """Remove scratch entries nobody has touched for hours (left behind by killed runs).
+    Entries in use by a concurrent check on another tree are recent and stay."""
+    now = time.time()
+    for top in (SCRATCH, os.path.join(SCRATCH, "tmp")):
+        try:
+            names = os.listdir(top)
+        except OSError:
+            continue
+        for name in names:
+            if name.startswith(prefixes):
+                p = os.path.join(top, name)
+                try:
+                    if now - os.stat(p).st_mtime > STALE_S:
+                        shutil.rmtree(p, ignore_errors=True)
+                except OSError:
+                    pass
 
 
 def pycache_dir() -> str:
-    """Byte-code cache keyed by the content of /repo's sources: never stale."""
+    """Byte-code cache keyed by the content of the tree's sources: never stale."""
     global _PYCACHE
-    if _PYCACHE is None:
-        th = tree_hash()
-        os.makedirs(SCRATCH, exist_ok=True)
-        for name in os.listdir(SCRATCH):
-            if name.startswith("pycache-") and name != "pycache-" + th:
-                shutil.rmtree(os.path.join(SCRATCH, name), ignore_errors=True)
-        _PYCACHE = os.path.join(SCRATCH, "pycache-" + th)
-        os.makedirs(_PYCACHE, exist_ok=True)
-    return _PYCACHE
+    with _LOCK:
+        if _PYCACHE is None:
+            th = tree_hash()
+            os.makedirs(SCRATCH, exist_ok=True)
+            _sweep_stale(("pycache-", "verif-"))
+            d = os.path.join(SCRATCH, "pycache-" + th)
+            os.makedirs(d, exist_ok=True)
+            os.utime(d)
+            _PYCACHE = d
+        return _PYCACHE
+
+
+def tmp_dir() -> str:
+    """Scratch space on the real file system (golden compiles, built shared objects):
+    under /verif/scratch, never /tmp."""
+    d = os.environ.get("VERIF_TMPDIR") or os.path.join(SCRATCH, "tmp")
+    os.makedirs(d, exist_ok=True)
+    return d
 
 
 def child_env(hashseed, extra=None) -> dict:
@@ -75,7 +116,7 @@ def child_env(hashseed, extra=None) -> dict:
         "LOGNAME": "simuser",
         "HOSTNAME": "simhost",
         "TERM": "dumb",
-        "TMPDIR": os.environ.get("TMPDIR", "/tmp"),
+        "TMPDIR": tmp_dir(),
         "VERIF_REPO": REPO,
     }
     if extra:
@@ -85,8 +126,13 @@ def child_env(hashseed, extra=None) -> dict:
 
 def run_plan(plan: dict, timeout: float = 300.0) -> dict:
     """Execute one plan in a fresh interpreter. Returns
-    {"status": "ok", "result": ...} | {"status": "timeout"} | {"status": "died", "rc":..., "stderr":...}
+    {"status": "ok", "result": ...} | {"status": "timeout", "inside": ...} | {"status": "died", "rc":..., "stderr":..., "inside": ...}
+    ("inside": the call into the system under test the worker was in, from its write-ahead markers).
     Raises HarnessFailure for simulator errors."""
+    from . import wal
+
+    plan = dict(plan)
+    plan["hard_timeout_s"] = timeout
     data = json.dumps(plan, sort_keys=True, separators=(",", ":"))
     cmd = [PY, "-X", "utf8", "-m", "sim.exec"]
     if not plan.get("aslr"):
@@ -101,17 +147,22 @@ def run_plan(plan: dict, timeout: float = 300.0) -> dict:
             cwd=VERIF,
             timeout=timeout,
         )
-    except subprocess.TimeoutExpired:
-        return {"status": "timeout"}
+    except subprocess.TimeoutExpired as e:
+        return {"status": "timeout", "inside": wal.inside((e.stdout or b"").decode("utf-8", "replace")), "stderr": (e.stderr or b"").decode("utf-8", "replace")[-4000:]}
+    except OSError as e:
+        raise HarnessFailure("cannot start a worker (%s): %s" % (" ".join(cmd[:3]), e))
     err = p.stderr.decode("utf-8", "replace")
     if p.returncode == 3 or "HARNESS-ERROR" in err:
         raise HarnessFailure("worker reported: " + err[-2000:])
     line = None
-    for l in p.stdout.decode("utf-8", "replace").splitlines():
+    out = p.stdout.decode("utf-8", "replace")
+    for l in out.splitlines():
         if l.startswith("RESULT "):
             line = l[7:]
     if p.returncode != 0 or line is None:
-        return {"status": "died", "rc": p.returncode, "stderr": err[-4000:]}
+        if "setarch" in err and not out:
+            raise HarnessFailure("setarch -R (ASLR off) is refused in this sandbox: " + err[-500:])
+        return {"status": "died", "rc": p.returncode, "stderr": err[-4000:], "inside": wal.inside(out)}
     return {"status": "ok", "result": json.loads(line)}
 
 
@@ -124,21 +175,55 @@ def pmap(fn, items, jobs: int, deadline=None):
     Items whose start would be after `deadline` are skipped (None)."""
     out = [None] * len(items)
 
+    stop = []
+
     def wrap(i):
-        if deadline is not None and time.monotonic() > deadline:
+        if stop or (deadline is not None and time.monotonic() > deadline):
             return i, None
         return i, fn(items[i])
 
-    with concurrent.futures.ThreadPoolExecutor(max_workers=jobs) as ex:
+    ex = concurrent.futures.ThreadPoolExecutor(max_workers=jobs)
+    try:
         futs = [ex.submit(wrap, i) for i in range(len(items))]
         for f in concurrent.futures.as_completed(futs):
             i, r = f.result()
             out[i] = r
+    except BaseException:
+        # a failure of the machinery ends the batch now, not after the remaining seeds
+        stop.append(1)
+        ex.shutdown(wait=True, cancel_futures=True)
+        raise
+    ex.shutdown(wait=True)
     return out
 
 
-def jobs_default() -> int:
+def _cgroup_cpus():
+    """CPU quota of this container (cgroup v2 cpu.max / v1 cfs quota), or None."""
     try:
-        return max(1, int(os.environ.get("VERIF_JOBS", "") or len(os.sched_getaffinity(0))))
+        with open("/sys/fs/cgroup/cpu.max") as f:
+            q, per = f.read().split()[:2]
+        if q != "max":
+            return max(1, int(int(q) / int(per)))
     except Exception:
-        return 8
+        pass
+    try:
+        with open("/sys/fs/cgroup/cpu/cpu.cfs_quota_us") as f:
+            q = int(f.read())
+        with open("/sys/fs/cgroup/cpu/cpu.cfs_period_us") as f:
+            per = int(f.read())
+        if q > 0:
+            return max(1, q // per)
+    except Exception:
+        pass
+    return None
+
+
+def jobs_default() -> int:
+    if os.environ.get("VERIF_JOBS"):
+        return max(1, int(os.environ["VERIF_JOBS"]))
+    try:
+        n = len(os.sched_getaffinity(0))
+    except Exception:
+        n = 8
+    q = _cgroup_cpus()
+    return max(1, min(n, q) if q else n)
